@@ -120,6 +120,18 @@ func init() {
 			z := c.BV(0, 64)
 			return mkSymInt(c.Ite(c.Cmp(smt.OpSLt, x, z), c.BV(^uint64(0), 64), c.Ite(c.Cmp(smt.OpEq, x, z), z, c.BV(1, 64)))), true
 		},
+		"ExploreOn": func(in *Interp, fr *Frame, a []Value) (Value, bool) {
+			in.exploreOff = false
+			return Value{}, true
+		},
+		"ExploreOff": func(in *Interp, fr *Frame, a []Value) (Value, bool) {
+			in.exploreOff = true
+			return Value{}, true
+		},
+		"Atomic": func(in *Interp, fr *Frame, a []Value) (Value, bool) {
+			in.CallSync(a[0], nil) // no scheduling point inside
+			return Value{}, true
+		},
 		"Yield": func(in *Interp, fr *Frame, a []Value) (Value, bool) {
 			in.yieldNow = true
 			return Value{}, true
